@@ -277,7 +277,7 @@ def oracle(ctx, heavy=False):
                     err = float((yt - ref).abs().max())
                     ctx.count(("adaptive-acc", name, meth, direction, atol))
                     bound = 300 * (atol + rtol * float(ref.abs().max()))
-                    if err > bound:
+                    if not err <= bound:
                         ctx.fail("oracle", "ivp:%s:accuracy" % meth, {"family": name, "atol": atol, "rtol": rtol, "direction": direction},
                                  err, "<= %g" % bound)
                     if not torch.equal(yt[0], y0):
@@ -289,7 +289,7 @@ def oracle(ctx, heavy=False):
                 part = solve_ivp(f, ts[:3], y0, method=meth)
                 ctx.count(("prefix", name, meth, direction))
                 tol = 0.0 if meth in orders else 1e-9
-                if (full[:3] - part).abs().max() > tol:
+                if not (full[:3] - part).abs().max() <= tol:
                     ctx.fail("oracle", "ivp:%s:prefix" % meth, {"family": name, "direction": direction},
                              float((full[:3] - part).abs().max()), "values do not depend on later time points")
                 # time reversal (adaptive; for the fixed-step methods the decreasing-grid runs of the
@@ -298,7 +298,7 @@ def oracle(ctx, heavy=False):
                     tight = dict(atol=1e-10, rtol=1e-9)
                     fwd = solve_ivp(f, ts, y0, method=meth, **tight)
                     back = solve_ivp(f, torch.flip(ts, dims=[0]), fwd[-1], method=meth, **tight)
-                    if (back[-1] - y0).abs().max() > 1e-6:
+                    if not (back[-1] - y0).abs().max() <= 1e-6:
                         ctx.fail("oracle", "ivp:%s:reversal" % meth, {"family": name, "direction": direction},
                                  float((back[-1] - y0).abs().max()), "decreasing ts gives the time-reversed solution")
                 # tuple state == concatenated state
@@ -308,7 +308,7 @@ def oracle(ctx, heavy=False):
                 cat = solve_ivp(lambda t, y: torch.cat([f(t, y[:3]), f(t, y[3:6]), f(t, y[6:9])]), ts,
                                 torch.cat([y0, y0, y0 * 0.5]), method=meth)
                 got = torch.cat([tup[0], tup[1].reshape(len(ts), -1)], dim=-1)
-                if (got - cat).abs().max() > 1e-12:
+                if not (got - cat).abs().max() <= 1e-12:
                     ctx.fail("oracle", "ivp:%s:tuple" % meth, {"family": name}, float((got - cat).abs().max()),
                              "list-of-tensors state equals concatenated state")
                 ctx.count(("tuple", name, meth, direction))
@@ -337,11 +337,11 @@ def time_unit_oracle(ctx):
                 err = float((yt - exact).norm(dim=-1).max())
                 ctx.count(("time-unit", meth, rtol, j))
                 info = {"family": "rotation with rate 2^-%d on [0, 10*2^%d]" % (j, j), "method": meth, "rtol": rtol, "atol": atol}
-                if err > 100 * (atol + rtol):
+                if not err <= 100 * (atol + rtol):
                     ctx.fail("oracle", "ivp:%s:accuracy-long-interval" % meth, info, err, "<= %g" % (100 * (atol + rtol)))
                 if ref is None:
                     ref = yt
-                elif float((yt - ref).abs().max()) > 1e-9:
+                elif not float((yt - ref).abs().max()) <= 1e-9:
                     ctx.fail("oracle", "ivp:%s:time-unit-dependence" % meth, info, float((yt - ref).abs().max()),
                              "the same trajectory in every unit of time")
 
@@ -359,7 +359,7 @@ def scale_and_dtype_oracle(ctx):
             yt = solve_ivp(f, ts, amp * torch.tensor([1.0, 0.0], dtype=DT), method=meth, atol=atol, rtol=rtol)
             err = float((yt - amp * exact).norm(dim=-1).max())
             ctx.count(("amplitude", meth, amp))
-            if err > 300 * (atol + rtol * amp):
+            if not err <= 300 * (atol + rtol * amp):
                 ctx.fail("oracle", "ivp:%s:accuracy-vs-amplitude" % meth, {"family": "rotation", "amplitude": amp, "atol": atol, "rtol": rtol},
                          err, "<= %g" % (300 * (atol + rtol * amp)))
     for meth in ("euler", "rk4", "rk38", "rk23", "rk45"):
@@ -375,7 +375,7 @@ def scale_and_dtype_oracle(ctx):
         ctx.count(("dtype-complex", meth))
         refc = y0c * torch.exp(1j * tsc).unsqueeze(-1)
         tolc = {"euler": 0.2, "rk4": 1e-5, "rk38": 1e-5, "rk23": 1e-3, "rk45": 1e-4}[meth]
-        if ytc.dtype != torch.complex128 or not torch.equal(ytc[0], y0c) or float((ytc - refc).abs().max()) > tolc:
+        if ytc.dtype != torch.complex128 or not torch.equal(ytc[0], y0c) or not float((ytc - refc).abs().max()) <= tolc:
             ctx.fail("oracle", "ivp:%s:complex-state" % meth, {"state": "complex128", "grid": "float64"},
                      [str(ytc.dtype), float((ytc - refc).abs().max()) if ytc.dtype == torch.complex128 else None], "complex128 result within %g" % tolc)
 
